@@ -43,6 +43,11 @@ fn main() {
                 let p = |i: usize| -> u64 { args.get(i).and_then(|s| s.parse().ok()).unwrap_or_else(|| harness_error("child args")) };
                 c19::child_batch(p(2), p(3), p(4), args.get(5).unwrap_or_else(|| harness_error("child args")))
             }
+            Some("ber-hash") => campaign::child_ber_hash(args.get(2).unwrap_or_else(|| harness_error("child args"))),
+            Some("c16-hash") => {
+                let p = |i: usize| -> u64 { args.get(i).and_then(|s| s.parse().ok()).unwrap_or_else(|| harness_error("child args")) };
+                c16::child_case_hash(p(2), p(3))
+            }
             Some("cli-ber") => c20::child_cli_ber(args.get(2).unwrap_or_else(|| harness_error("child args"))),
             Some("ffi-replay") => c19::child_replay(
                 args.get(2).unwrap_or_else(|| harness_error("child args")),
